@@ -9069,7 +9069,15 @@ bool SoPlexBase<R>::_parseSettingsLine(char* line, const int lineNumber)
                          SPX_SET_MAX_LINE_LEN) == 0)
          {
             int value;
-            value = std::stoi(paramValueString);
+
+            try
+            {
+               value = std::stoi(paramValueString);
+            }
+            catch(const std::exception&)
+            {
+               return false;
+            }
 
             if(setIntParam((SoPlexBase<R>::IntParam)param, value, false))
                break;
@@ -9107,7 +9115,15 @@ bool SoPlexBase<R>::_parseSettingsLine(char* line, const int lineNumber)
 #ifdef WITH_FLOAT
             value = std::stof(paramValueString);
 #else
-            value = std::stod(paramValueString);
+
+            try
+            {
+               value = std::stod(paramValueString);
+            }
+            catch(const std::exception&)
+            {
+               return false;
+            }
 #endif
 #endif
 
@@ -9168,7 +9184,15 @@ bool SoPlexBase<R>::_parseSettingsLine(char* line, const int lineNumber)
          unsigned int value;
          unsigned long parseval;
 
-         parseval = std::stoul(paramValueString);
+
+         try
+         {
+            parseval = std::stoul(paramValueString);
+         }
+         catch(const std::exception&)
+         {
+            return false;
+         }
 
          if(parseval > UINT_MAX)
          {
@@ -9566,7 +9590,15 @@ bool SoPlexBase<R>::parseSettingsString(char* string)
                          SPX_SET_MAX_LINE_LEN) == 0)
          {
             int value;
-            value = std::stoi(paramValueString);
+
+            try
+            {
+               value = std::stoi(paramValueString);
+            }
+            catch(const std::exception&)
+            {
+               return false;
+            }
 
             if(setIntParam((SoPlexBase<R>::IntParam)param, value, false))
                break;
@@ -9603,7 +9635,15 @@ bool SoPlexBase<R>::parseSettingsString(char* string)
 #ifdef WITH_FLOAT
             value = std::stof(paramValueString);
 #else
-            value = std::stod(paramValueString);
+
+            try
+            {
+               value = std::stod(paramValueString);
+            }
+            catch(const std::exception&)
+            {
+               return false;
+            }
 #endif
 #endif
 
@@ -9664,7 +9704,15 @@ bool SoPlexBase<R>::parseSettingsString(char* string)
          unsigned int value;
          unsigned long parseval;
 
-         parseval = std::stoul(paramValueString);
+
+         try
+         {
+            parseval = std::stoul(paramValueString);
+         }
+         catch(const std::exception&)
+         {
+            return false;
+         }
 
          if(parseval > UINT_MAX)
          {
